@@ -16,7 +16,7 @@ import tempfile
 
 HERE = os.path.dirname(os.path.abspath(__file__))
 VERIF = os.path.dirname(HERE)
-SCRATCH = "/tmp/ecmut/repo"
+SCRATCH = "/tmp/ecmut-%d/repo" % os.getpid()  # one scratch copy per runner: concurrent runs must not share it
 
 
 def load():
@@ -72,7 +72,7 @@ def main():
                     print("    " + "\n    ".join(out.strip().splitlines()[-8:]))
     finally:
         shutil.rmtree(tmp, ignore_errors=True)
-        shutil.rmtree("/tmp/ecmut", ignore_errors=True)
+        shutil.rmtree(os.path.dirname(SCRATCH), ignore_errors=True)
     bad = [r for r in res if r[2] not in ("ok-caught", "ok-silent")]
     print("%d mutants/neutral edits, %d not as expected" % (len(res), len(bad)))
     return 1 if bad else 0
